@@ -23,7 +23,7 @@ EXPLANATION = (
     "that compares the size of a collection with a literal (cardinality cut-off) - only emptiness, domain-membership "
     "and arithmetic guards may skip; (O4) no structural shape dispatch of linear constraints falls through silently "
     "and the encoder's linearisation consumes (or loudly rejects) every expression tag; (O5) decoding reads, for each "
-    "named variable, only that variable's own literals and returns a value of its domain. (O7) each boolean-id counter is written only by its initialisation and its allocator, auxiliary variables draw their literals from the encoder's allocator, and the encoder stores nothing in the model. NOT decided: clause-level "
+    "named variable, only that variable's own literals and returns a value of its domain. (O7) each boolean-id counter is written only by its initialisation and its allocator, auxiliary variables draw their literals from the encoder's allocator, and the encoder stores nothing in the model. (O8) in the scheduling encoders an additive term never mixes the start of one task with the duration of another. NOT decided: clause-level "
     "correctness of each pairwise / partial-sum / MTZ / time-indexed encoding."
 )
 
@@ -130,6 +130,69 @@ def domain_mismatch_loops(f: Func):
     return out
 
 
+TASK_ARRAYS = {"starts", "durations", "demands"}
+
+
+def _task_tags(e: ast.AST) -> set[str]:
+    """which task the operands of one additive term speak about: the index of a task-array subscript, or the numeric
+    suffix of a start/duration scalar (start1, dur1, s1 ...)"""
+    import re
+
+    tags = set()
+    stack = [e]
+    while stack:
+        n = stack.pop()
+        if isinstance(n, ast.Compare):
+            continue  # each side of a comparison is a term of its own
+        if isinstance(n, ast.Subscript) and isinstance(n.value, ast.Name) and n.value.id in TASK_ARRAYS:
+            tags.add(ast.unparse(n.slice))
+            continue
+        if isinstance(n, ast.Name):
+            m = re.fullmatch(r"(start|dur|s|end|d)(\d)", n.id)
+            if m:
+                tags.add("#" + m.group(2))
+        stack.extend(ast.iter_child_nodes(n))
+    return tags
+
+
+def check_same_task(ctx: Ctx, oid: str):
+    """end of task k = start_k + duration_k: an additive term never mixes two tasks"""
+    n_terms = n_groups = 0
+    for q in ("SATEncoder._encode_no_overlap", "SATEncoder._encode_disjunctive_le", "SATEncoder._encode_cumulative"):
+        f = ctx.func(ENCMOD, q)
+        tops = []
+        for n in ast.walk(f.node):
+            if isinstance(n, ast.BinOp) and isinstance(n.op, (ast.Add, ast.Sub)):
+                tops.append(n)
+        inner = {id(c) for t in tops for c in ast.walk(t) if c is not t and isinstance(c, ast.BinOp)}
+        for t in tops:
+            if id(t) in inner:
+                continue
+            tags = _task_tags(t)
+            if not tags:
+                continue
+            n_terms += 1
+            ctx.ob(oid, "R34 SAME-TASK", f, f"`{ast.unparse(t)[:50]}` combines start and duration of one task", len(tags) == 1, f"mixes tasks {sorted(tags)}: the end of a task is its own start plus its own duration", node=t)
+        for c in ast.walk(f.node):
+            if isinstance(c, ast.Call):
+                g = ctx.repo.resolve_call(f, c)
+                if g is None or g.qualname != "SATEncoder._encode_disjunctive_le":
+                    continue
+                import re
+
+                params = [a.arg for a in g.node.args.args if a.arg != "self"]
+                groups = {}
+                for pn, a in zip(params, c.args):
+                    m = re.search(r"(\d)$", pn)
+                    if m:
+                        groups.setdefault(m.group(1), set()).update(_task_tags(a))
+                for k_, tg in sorted(groups.items()):
+                    n_groups += 1
+                    ctx.ob(oid, "R34 SAME-TASK", f, f"task #{k_} of the pairwise constraint receives start and duration of one task", len(tg) == 1, f"{sorted(tg)}", node=c)
+    ctx.floor("additive task terms in the scheduling encoders", n_terms, 3)
+    ctx.floor("task argument groups of _encode_disjunctive_le", n_groups, 2)
+
+
 def run(ctx: Ctx):
     m = ctx.repo.module(ENCMOD)
     solve = ctx.func(ENCMOD, "SATEncoder.solve")
@@ -194,6 +257,7 @@ def run(ctx: Ctx):
 
     check_alldiff_coverage(ctx, "C06-O6")
     check_id_allocation(ctx, "C06-O7")
+    check_same_task(ctx, "C06-O8")
 
     # O4 dispatch totality / expression tags
     ctags, etags = produced_tags(ctx)
@@ -317,6 +381,16 @@ def _v_aux_registered(tree):
     M.replace_stmt(g, lambda s: isinstance(s, ast.Return), lambda s: M.stmts("self.model._vars[name] = var") + [s])
 
 
+def _v_skip_pairs_wrong_duration(tree):
+    g = M.find_func(tree, "SATEncoder._encode_no_overlap")
+    M.replace_stmt(g, lambda s: isinstance(s, ast.Expr) and M.src_has(s.value, "_encode_disjunctive_le"), lambda s: M.stmts("if starts[i].ub + durations[i] <= starts[j].lb or starts[j].ub + durations[i] <= starts[i].lb:\n    continue") + [s])
+
+
+def _v_disjunctive_wrong_duration(tree):
+    g = M.find_func(tree, "SATEncoder._encode_disjunctive_le")
+    M.replace_expr(g, lambda e: M.src_is(e, "s2 + dur2 <= s1"), M.expr("s2 + dur1 <= s1"))
+
+
 def _t_reformat(tree):
     pass
 
@@ -345,5 +419,7 @@ VARIANTS = [
     M.Variant("encoder dispatches on shapes again (original defect)", ENC, _v_shape_again, "C06-O4"),
     M.Variant("auxiliary variables keep the model's literals and the encoder counter is re-synchronised (seed C05-D)", ENC, _v_resync_counter, "C06-O7"),
     M.Variant("auxiliary variables are registered in the model and re-encoded by the next solve (original defect)", ENC, _v_aux_registered, "C06-O7"),
+    M.Variant("no_overlap skips pairs using the other task's duration (seed C06-D)", ENC, _v_skip_pairs_wrong_duration, "C06-O8"),
+    M.Variant("pairwise disjunction adds task 1's duration to task 2's start", ENC, _v_disjunctive_wrong_duration, "C06-O8"),
     M.Variant("twin: reformat", ENC, _t_reformat, None),
 ]
